@@ -71,3 +71,11 @@ Proof.
   apply (program_callback_never_under _ _ _ _ _ no_blocking_wait_under_registry_lock _ _ _ _ _ Hth Hrun Hx _ _ _ _ Hn).
   cbn [user_acquires contracts_C12_waits mk]. unfold wait_acq. rewrite Hw. exact Hl.
 Qed.
+
+(* every goroutine start and every blocking wait that is not a mutex operation is one of the audited ones (the dispatch protocol
+   and the channel sink): a new concurrency construct in any library function breaks this obligation *)
+Definition concurrency_complaints := Eval vm_compute in
+  flat_complaints (unaudited audited_concurrency (reachable program entries)).
+Print concurrency_complaints.
+Theorem no_unaudited_concurrency_construct : unaudited audited_concurrency (reachable program entries) = [].
+Proof. vm_compute. reflexivity. Qed.
